@@ -18,8 +18,11 @@ Lemma dw_create_regular c f np st : made_regular (snd (dw_create c f np st)) = t
 Proof.
   unfold dw_create, regular_branch.
   destruct (mode_is_dir (st_mode st)); [destruct (sys_mkdir c f np (unix_perm (st_mode st))); discriminate|].
-  destruct (has_bits (st_mode st) ModeDevice || has_bits (st_mode st) ModeNamedPipe).
-  { match goal with |- context [sys_mknod c f np ?a ?b ?d] => destruct (sys_mknod c f np a b d) end. discriminate. }
+  destruct (has_bits (st_mode st) ModeDevice || has_bits (st_mode st) ModeNamedPipe); cbn [andb negb].
+  { destruct (is_nil (st_linkname st)); cbn [negb].
+    - match goal with |- context [sys_mknod c f np ?a ?b ?d] => destruct (sys_mknod c f np a b d) end. discriminate.
+    - destruct (mode_is_symlink (st_mode st)); [destruct (sys_symlink c f (st_linkname st) np); discriminate|].
+      destruct (sys_link c f (st_linkname st) np); discriminate. }
   destruct (mode_is_symlink (st_mode st)); [destruct (sys_symlink c f (st_linkname st) np); discriminate|].
   destruct (is_nil (st_linkname st)); cbn [negb].
   - intros _. reflexivity.
